@@ -34,6 +34,15 @@ SAFE_CALLS = ("time.monotonic", "time.perf_counter", "time.sleep", "sleep", "max
               "self.ctxt.temp_connections.values", "self.ctxt.log.info", "self.ctxt.log.debug", "self.ctxt.log.warning", "mplogger.warning", "mplogger.info")
 
 
+def _parents_of(node, stop):
+    out = []
+    p = getattr(node, "_parent", None)
+    while p is not None and p is not stop:
+        out.append(p)
+        p = getattr(p, "_parent", None)
+    return out
+
+
 def r1(ctx):
     for q in ENTRIES:
         fi = ctx.fn(q)
@@ -56,20 +65,59 @@ def r1(ctx):
                   "datagrams from block-listed addresses are discarded before any processing", witness=[{"line": u.lineno, "conditions": c} for (u, c) in bad][:3],
                   line=bad[0][0].lineno if bad else 0)
         # the blocked branch leaves immediately
-        guards = [n for n in walk_own(fi.node) if isinstance(n, ast.If) and norm(n.test) == "addr[0] in self.ctxt.blocklist"]
-        ok = len(guards) == 1 and len(guards[0].body) == 1 and isinstance(guards[0].body[0], (ast.Return, ast.Continue))
-        ctx.check(ok, "C11.R1", fi, "blocked -> return/continue at once", witness=[norm(g) for g in guards])
+        # on the blocked outcome of the test nothing with an effect is reachable (return / continue / falling off the end)
+        tests = [n for n in cfg.nodes if n.kind == "test" and n.ast is not None and norm(n.ast) in ("addr[0] in self.ctxt.blocklist", "addr[0] not in self.ctxt.blocklist")]
+        ok = len(tests) == 1
+        wit = []
+        if ok:
+            t = tests[0]
+            lab = "T" if " not in " not in norm(t.ast) else "F"
+            for (d, l) in cfg.succ[t.id]:
+                if l != lab:
+                    continue
+                for nid in cfg.reachable(d):
+                    n = cfg.nodes[nid]
+                    if n.ast is None or isinstance(n.ast, (ast.Return, ast.Continue, ast.Pass)) or n.kind in ("join", "exit", "entry", "for", "while"):
+                        continue
+                    if n.kind == "test" and any(isinstance(p_, (ast.While, ast.For)) for p_ in [n.stmt]):
+                        continue
+                    # inside a loop the blocked outcome goes on with the next datagram: what is reachable again is the loop itself
+                    if any(isinstance(p_, (ast.While, ast.For)) for p_ in _parents_of(t.ast, fi.node)):
+                        break
+                    ok = False
+                    wit.append(norm(n.ast)[:60])
+        ctx.check(ok, "C11.R1", fi, "blocked -> return/continue at once", witness=wit[:3])
         sends = [c for c in walk_own(fi.node) if isinstance(c, ast.Call) and isinstance(c.func, ast.Attribute) and c.func.attr in ("sendto", "write", "_send_type", "send", "sendall")]
         ctx.check(not sends, "C11.R1", fi, "the datagram entry point never sends", "no reply before the datagram reached the server loop", witness=[norm(s) for s in sends])
 
 
-def _log_only(handler):
-    for st in handler.body:
-        if isinstance(st, ast.Expr) and isinstance(st.value, ast.Call) and (".log." in norm(st.value.func) or ".access_log." in norm(st.value.func) or norm(st.value.func).startswith("mplogger.")):
+LOG_METHODS = {"debug", "info", "warning", "error", "exception", "critical", "log"}
+
+
+def _is_logger(e):
+    """an expression that denotes a logger: x.log, x.access_log, mplogger, or `a or b` / conditional of such"""
+    if isinstance(e, ast.BoolOp):
+        return all(_is_logger(v) for v in e.values)
+    if isinstance(e, ast.IfExp):
+        return _is_logger(e.body) and _is_logger(e.orelse)
+    t = norm(e)
+    return t == "mplogger" or t.endswith(".log") or t.endswith(".access_log") or t.endswith("logger")
+
+
+def _log_only(handler, loggers=None):
+    loggers = set(loggers or ())
+    for st in handler.body if hasattr(handler, "body") else handler:
+        if isinstance(st, ast.Expr) and isinstance(st.value, ast.Call) and isinstance(st.value.func, ast.Attribute) and st.value.func.attr in LOG_METHODS \
+                and (_is_logger(st.value.func.value) or (isinstance(st.value.func.value, ast.Name) and st.value.func.value.id in loggers)):
             continue
-        if isinstance(st, ast.Assign) and isinstance(st.value, ast.Constant):
-            continue
-        if isinstance(st, ast.If) and all(isinstance(s, ast.Expr) and isinstance(s.value, ast.Call) and ("log." in norm(s.value.func)) for s in st.body + st.orelse):
+        if isinstance(st, ast.Assign) and len(st.targets) == 1 and isinstance(st.targets[0], ast.Name):
+            if isinstance(st.value, ast.Constant):
+                continue
+            if _is_logger(st.value):
+                loggers.add(st.targets[0].id)
+                continue
+        if isinstance(st, ast.If) and _log_only(st.body, loggers) and _log_only(st.orelse, loggers) \
+                and not any(isinstance(x, ast.Call) for x in ast.walk(st.test)):
             continue
         if isinstance(st, ast.Pass):
             continue
